@@ -149,3 +149,18 @@ func (s *Store) extUserinfoCustom(ui *oidc.UserInfo, userID string, scopes []str
 		}
 	}
 }
+
+// ---- C06: storage STYLE of SetUserinfoFromScopes / SetUserinfoFromRequest /
+// SetUserinfoFromTokenExchangeRequest / SetUserinfoFromToken. Default: the storage sets single
+// fields of the destination. EnableUserinfoReplace: it builds the record and REPLACES the whole
+// destination struct (*userinfo = record), as a storage that loads a user record does - whatever
+// the framework had put into the destination before the call is gone. Same content otherwise.
+var userinfoReplace sync.Map // *Store -> bool
+
+func (s *Store) EnableUserinfoReplace() { userinfoReplace.Store(s, true) }
+
+func (s *Store) extUserinfoReplace(ui *oidc.UserInfo) {
+	if _, on := userinfoReplace.Load(s); on {
+		*ui = oidc.UserInfo{}
+	}
+}
